@@ -564,6 +564,39 @@ def _analyse(chk, ctx):
                    'length' % n_.args[0].value[:60],
                    site='%s:%d' % (mi.relpath, n_.lineno))
     chk.units['decode_side_patterns'] = nre
+    # a decoded value is built from the octets the decoder consumed: a
+    # result that is an open-ended view of the buffer (value[4:]) holds a
+    # copy of everything that follows it - k such values in one frame hold
+    # k/2 frames
+    from .. import pairs as _pairs
+    for fi_ in dmod.functions.values():
+        if fi_.name.startswith('_') or fi_.name in ('by_type',
+                                                    'embedded_value'):
+            continue
+        try:
+            D_ = _pairs.dec_desc(ctx, fi_)
+        except Exception:
+            continue
+        for dp_ in D_.paths:
+            opens = [t for t in T.subterms(dp_.value)
+                     if t.op == 'slice' and t.args[2] is None and
+                     T.mentions(t.args[0], lambda x: x is D_.B)] \
+                if isinstance(dp_.value, (Sym, tuple)) else []
+            if opens:
+                chk.ob('C08.A', '%s result' % fi_.short, False,
+                       'the decoded value contains %s, an open-ended view '
+                       'of the buffer: it holds everything that follows the '
+                       'value, not only the %s octets consumed' % (
+                           T.show(opens[0])[:60],
+                           T.show(dp_.consumed)[:30]),
+                       site='%s:%d' % (fi_.module.relpath,
+                                       fi_.node.lineno))
+    # the property-flag accumulator grows 16 bits per flag word read
+    from .. import tsrules as _ts
+    for cons_, okk_, why_ in _ts.flag_word_rule(ctx):
+        if okk_ is False and 'accumulation' in cons_:
+            chk.ob('C08.A', cons_, False, why_ + ' - the integer then grows '
+                   'faster than the input', site='pamqp/header.py')
     # memory kept across calls: no caching wrapper on the decode side
     from .. import models
     dfuncs = [fi for fi in prog.functions.values()
